@@ -108,7 +108,7 @@ fn main() {
         }
         exec_dispatch(ctx, &Ev::new("symmetric", ty, n).int64(0));
         exec_dispatch(ctx, &Ev::new("symmetric", ty, n).int64(!0));
-        let reps = if thorough { 4000 } else { 200 };
+        let reps = if thorough { 60000 } else { 300 };
         for _ in 0..reps {
             exec_dispatch(ctx, &Ev::new("symmetric", ty, n).int64(rng.next_u64()));
         }
